@@ -71,10 +71,12 @@ extern "C" void c15_prologue(unsigned deferred) {
   new (g_hf) Future<>{std::move(f)}; new (g_hp) Promise<>{std::move(p)};
 }
 extern "C" void c15_release() { g_released = 1; std::move(HP).Set(); }   // lets the parked holder finish its critical section
+extern "C" void c15_drain() { g_a.Drain(); g_b.Drain(); }
 extern "C" void c15_start_w_hold_3() { Worker<20>(3).DetachInline(Fin{}); }
 extern "C" void c15_start_r_hold_3() { Worker<21>(3).DetachInline(Fin{}); }
 extern "C" void c15_start_m_hold_3() { Worker<22>(3).DetachInline(Fin{}); }
-#define START(name, form, id) extern "C" void c15_start_##name##_##id() { Worker<form>(id).DetachInline(Fin{}); }
+#define START(name, form, id) extern "C" void c15_start_##name##_##id() { Worker<form>(id).DetachInline(Fin{}); } \
+  extern "C" void c15_startd_##name##_##id() { Worker<form>(id).DetachInline(Fin{}); g_a.Drain(); g_b.Drain(); }   /* deferred executors: start AND let it run up to its lock request */
 #define START3(name, form) START(name, form, 0) START(name, form, 1) START(name, form, 2)
 START3(lock_unlock, 0) START3(guard, 1) START3(lock_unlockhere, 2) START3(lock_unlockon, 3) START3(guardsticky, 4)
 START3(w_lock, 10) START3(w_guard, 11) START3(r_lock, 12) START3(r_guard, 13)
@@ -90,7 +92,23 @@ extern "C" void c15_epilogue(unsigned workers, unsigned shared) {
   vp_assert(g_plain_bad == 0, "C14/C15 what one critical section wrote was not what the next one saw (another holder was inside meanwhile)");
   vp_assert(g_done == workers && g_finals == workers, "C14/C15 a lock request was never granted (lost wake-up: a coroutine stays parked although every holder released)");
   if (!shared) vp_assert(g_m.TryLock(), "C14 mutex not free at quiescence");
-  else { vp_assert(g_sm.TryLock(), "C15 shared mutex not free at quiescence (a count did not cancel)"); g_sm.UnlockHere(); vp_assert(g_sm.TryLockShared(), "C15 shared mutex not free for readers at quiescence"); }
+  else {
+    vp_assert(g_sm.TryLock(), "C15 shared mutex not free at quiescence (a count did not cancel)");
+    if (shared == 2) {
+      // while this writer holds, a reader that arrives must park: a reader credit left behind by an earlier race would let it in
+      unsigned done0 = g_done;
+      g_a.deferred = g_b.deferred = false;
+      ++g_w_in;
+      Worker<12>(0).DetachInline(Fin{});
+      vp_assert(g_done == done0 && g_bad_rw == 0, "C15 a reader entered while a writer holds the lock (a stale reader credit was left behind)");
+      --g_w_in;
+      g_sm.UnlockHere();
+      vp_assert(g_done == done0 + 1, "C15 a reader that queued behind the last writer was never granted");
+    } else {
+      g_sm.UnlockHere();
+    }
+    vp_assert(g_sm.TryLockShared(), "C15 shared mutex not free for readers at quiescence");
+  }
   vp_assert(vp_live_count() == 0, "C03 a coroutine frame is still alive at quiescence");
   vp_reach("c15 end");
 }
